@@ -9,7 +9,7 @@ use serde_json::{Value, json};
 
 pub static PROP: Prop = Prop {
     id: "C12",
-    rule: "(a) planted-fault programs decoded from a proptest choice vector: a preamble of generated statements of arbitrary kinds printed with comments / blank lines / multi-line expressions, then a fault expression of a known kind (throw, bad index, operator type mismatch, failed assert, access on null, call of a non-callable, failed let hint, optionally spread over several lines) on a known line, reached through 0-4 carriers on known lines (function call, method call, each callback driven by to_tuple, `@+` overload, nested block inside if / for) with filler statements between them; plus `debug` expressions (single- and multi-line) on known lines. Oracle through KotoVm::run: trace[0] maps through debug_info.get_source_span to a span starting on the fault expression's first line, trace[i] to the carriers' call-site lines innermost first; the rendered message contains for each of those lines the `line:col` header and the exact source line; debug output starts with `[<line of the debug keyword>]`. (b) compile errors: valid programs with one unambiguously illegal token (`$`, stray `)` / `]`, reserved `await` / `const`) inserted at a token boundary on a known line: reported line == token's line, column <= display width of the line, rendering does not panic; and for the corpus mutation neighbourhood the weaker clause (position inside the source). Non-trivial: fault at call depth >= 1 or preceded by >= 1 multi-line construct.",
+    rule: "(a) planted-fault programs decoded from a proptest choice vector: a preamble of generated statements of arbitrary kinds printed with comments / blank lines / multi-line expressions, then a fault expression of a known kind (throw, bad index, operator type mismatch, failed assert, access on null, call of a non-callable, failed let hint, an error raised by a native function after a successful callback, optionally spread over several lines) on a known line, reached through 0-4 carriers on known lines (function call, method call, each callback driven by to_tuple, `@+` overload, nested block inside if / for) with filler statements between them; plus `debug` expressions (single- and multi-line) on known lines. Oracle through KotoVm::run: trace[0] maps through debug_info.get_source_span to a span starting on the fault expression's first line, trace[i] to the carriers' call-site lines innermost first; the rendered message contains for each of those lines the `line:col` header and the exact source line; debug output starts with `[<line of the debug keyword>]`. (b) compile errors: valid programs with one unambiguously illegal token (`$`, stray `)` / `]`, reserved `await` / `const`) inserted at a token boundary on a known line: reported line == token's line, column <= display width of the line, rendering does not panic; and for the corpus mutation neighbourhood the weaker clause (position inside the source). Non-trivial: fault at call depth >= 1 or preceded by >= 1 multi-line construct.",
     assumptions: &[
         "columns are only required to lie inside the line (the statement speaks of lines)",
         "native frames (each/to_tuple) are expected at the line of the call that drives them",
@@ -32,7 +32,10 @@ pub struct Planted {
     pub fault: String,
 }
 
-const FAULTS: [(&str, &str); 12] = [
+const FAULTS: [(&str, &str); 14] = [
+    // a native function that has called back into koto successfully and then fails itself
+    ("native-after-callback", "q = (1, 2).find |x| 5"),
+    ("native-after-callback-sort", "q = [2, 1].sort |x| if x == 1 then 'a' else 2"),
     // faults whose very first instruction fails (operands already in registers): `@` is the
     // enclosing function's argument, or the top-level local `num5`
     ("arg-access", "q = @.nofield"),
